@@ -460,8 +460,7 @@ def alias(root, params):
         for s in n.get("stmts", []):
             if isinstance(s, dict) and s.get("k") == "let" and "els" not in s and s.get("pat", {}).get("k") == "pbind" and "init" in s:
                 init = hir.simp(s["init"])
-                if isinstance(init, dict) and init.get("k") == "local" and immut(s["pat"].get("id")) and immut(init.get("id")) and \
-                        (s.get("inl") or init.get("inl") or s["pat"].get("inl")):
+                if isinstance(init, dict) and init.get("k") == "local" and immut(s["pat"].get("id")) and immut(init.get("id")):
                     ren[s["pat"]["id"]] = init
                     continue
             out.append(s)
@@ -506,6 +505,181 @@ def rename_params(b, ref_names):
 
 
 # ---------------------------------------------------------------------------------------------------------------------
+# integer temporaries
+
+def _arith(e):
+    """Pure integer/boolean expression without calls or indexing: locals, literals, consts, fields, casts, operators."""
+    e = hir.simp(e)
+    if not isinstance(e, dict):
+        return False
+    k = e.get("k")
+    if k in ("local", "lit", "def"):
+        return True
+    if k in ("field", "cast"):
+        return _arith(e["e"])
+    if k == "un" and "callee" not in e and e.get("op") in ("Deref", "Not", "Neg"):
+        return _arith(e["e"])
+    if k == "bin" and "callee" not in e:
+        return _arith(e["l"]) and _arith(e["r"])
+    return False
+
+
+def _roots(e):
+    return {x.get("id") for x in all_nodes(e) if x.get("k") == "local"}
+
+
+def _writes(s):
+    """Root locals that statement `s` may write through (assignments, &mut borrows, calls receiving a &mut local)."""
+    w = set()
+    for x in all_nodes(s):
+        k = x.get("k")
+        if k in ("assign", "assignop"):
+            w |= _roots(x["l"])
+        elif k == "ref" and x.get("mut"):
+            w |= _roots(x["e"])
+        elif k == "call" and not x.get("ctor"):
+            for a in x.get("args", []):
+                a0 = hir.simp(a)
+                if isinstance(a0, dict) and a0.get("k") == "local" and str(a0.get("ty", "")).startswith("&mut"):
+                    w.add(a0.get("id"))
+    return w
+
+
+def _uses_in(s, i):
+    return [x for x in all_nodes(s) if x.get("k") == "local" and x.get("id") == i]
+
+
+def _under_loop_or_closure(s, i):
+    def go(n, inside):
+        if isinstance(n, list):
+            return any(go(x, inside) for x in n)
+        if not isinstance(n, dict):
+            return False
+        if n.get("k") == "local" and n.get("id") == i:
+            return inside
+        ins = inside or n.get("k") in ("loop", "closure")
+        return any(go(v, ins) for v in n.values() if isinstance(v, (dict, list)))
+    return go(s, False)
+
+
+INTLIKE = INT_TYS | {"bool"}
+
+
+def cast_to_uses(root):
+    """`let n = e as T;` (immutable) -> `let n = e;` with every use `n` replaced by `n as T`: where the widening is written
+    does not matter."""
+    def fn(n):
+        if n.get("k") != "block":
+            return n
+        seq = list(n.get("stmts", []))
+        tail = n.get("expr")
+        for idx, s in enumerate(seq):
+            if not (isinstance(s, dict) and s.get("k") == "let" and "els" not in s and s.get("pat", {}).get("k") == "pbind" and "init" in s):
+                continue
+            if s["pat"].get("mode") != "BindingMode(No, Not)":
+                continue
+            init = hir.simp(s["init"])
+            if not (isinstance(init, dict) and init.get("k") == "cast" and init.get("ty") in INT_TYS and (hir.simp(init["e"]) or {}).get("ty") in INT_TYS):
+                continue
+            i, ty = s["pat"]["id"], init["ty"]
+            inner_ty = hir.simp(init["e"]).get("ty")
+
+            def sub(x, i=i, ty=ty, inner_ty=inner_ty):
+                if x.get("k") == "local" and x.get("id") == i and not x.get("_castwrap"):
+                    return {"k": "cast", "e": dict(x, ty=inner_ty, _castwrap=True), "ty": ty, "ln": x.get("ln"), "norm": "cast-to-uses"}
+                return x
+            seq[idx] = dict(s, init=init["e"], pat=dict(s["pat"], ty=inner_ty))
+            for j in range(idx + 1, len(seq)):
+                seq[j] = map_tree(seq[j], sub)
+            if tail is not None:
+                tail = map_tree(tail, sub)
+        m = dict(n, stmts=seq)
+        if tail is not None:
+            m["expr"] = tail
+        return m
+    return map_tree(root, fn)
+
+
+def subst_int_lets(root):
+    """`let t = <pure integer expression>;` (immutable, not used under a loop/closure, nothing it reads is written before its
+    last use) -> uses replaced by the expression."""
+    def fn(n):
+        if n.get("k") != "block":
+            return n
+        seq = list(n.get("stmts", []))
+        tail = n.get("expr")
+        idx = 0
+        while idx < len(seq):
+            s = seq[idx]
+            idx += 1
+            if not (isinstance(s, dict) and s.get("k") == "let" and "els" not in s and s.get("pat", {}).get("k") == "pbind" and "init" in s):
+                continue
+            if s["pat"].get("mode") != "BindingMode(No, Not)" or s["pat"].get("ty") not in INTLIKE:
+                continue
+            init = hir.simp(s["init"])
+            if not _arith(init) or init.get("k") in ("lit", "local", "def"):
+                continue
+            i = s["pat"]["id"]
+            rest = seq[idx:] + ([tail] if tail is not None else [])
+            users = [j for j, t in enumerate(rest) if _uses_in(t, i)]
+            if not users or any(_under_loop_or_closure(t, i) for t in rest):
+                continue
+            roots = _roots(init)
+            ok = True
+            for j, t in enumerate(rest[:users[-1] + 1]):
+                w = _writes(t)
+                if not (w & roots):
+                    continue
+                if j in users and isinstance(t, dict) and t.get("k") in ("assign", "assignop") and not (_writes(t["r"]) & roots) \
+                        and not any(x.get("k") in ("call",) and not x.get("ctor") for x in all_nodes(t)) and j == users[-1]:
+                    continue      # the statement's own store happens after its operands were read
+                ok = False
+                break
+            if not ok:
+                continue
+
+            def sub(x, i=i, init=init):
+                if x.get("k") == "local" and x.get("id") == i:
+                    r = copy.deepcopy(init)
+                    return r
+                return x
+            new_rest = [map_tree(t, sub) for t in rest]
+            seq = seq[:idx - 1] + (new_rest[:-1] if tail is not None else new_rest)
+            if tail is not None:
+                tail = new_rest[-1]
+            idx -= 1
+        m = dict(n, stmts=seq)
+        if tail is not None:
+            m["expr"] = tail
+        return m
+    return map_tree(root, fn)
+
+
+_OPASSIGN = {"Add": "AddAssign", "Sub": "SubAssign", "Mul": "MulAssign", "BitOr": "BitOrAssign", "BitAnd": "BitAndAssign", "BitXor": "BitXorAssign",
+             "Shl": "ShlAssign", "Shr": "ShrAssign", "Div": "DivAssign", "Rem": "RemAssign"}
+
+
+def _assign_op(n):
+    """`p = p op e` on a primitive integer place -> `p op= e`."""
+    if n.get("k") != "assign":
+        return n
+    r = hir.simp(n["r"])
+    if isinstance(r, dict) and r.get("k") == "bin" and "callee" not in r and r.get("op") in _OPASSIGN and r.get("ty") in INT_TYS \
+            and pure(n["l"]) and hir.place_str(n["l"]) is not None and hir.place_str(n["l"]) == hir.place_str(r["l"]) \
+            and json.dumps(_strip(hir.peel(n["l"])), sort_keys=True) == json.dumps(_strip(hir.peel(r["l"])), sort_keys=True):
+        return {"k": "assignop", "op": _OPASSIGN[r["op"]], "l": n["l"], "r": r["r"], "ln": n.get("ln"), "ty": "()", "norm": "assign-op"}
+    return n
+
+
+def _strip(n):
+    if isinstance(n, dict):
+        return {k: _strip(v) for k, v in n.items() if k not in ("ln", "ty", "mac", "inl", "norm", "col")}
+    if isinstance(n, list):
+        return [_strip(x) for x in n]
+    return n
+
+
+# ---------------------------------------------------------------------------------------------------------------------
 
 def normalise_crate(name, crate):
     if os.environ.get("VERIF_NO_NORM"):
@@ -529,13 +703,36 @@ def normalise_crate(name, crate):
             h2 = inl.expand(h)
             if any(x.get("inlined") for x in all_nodes(h2) if isinstance(x, dict)):
                 h2 = hoist(h2)
-                h2 = alias(h2, b.get("params", []))
                 b["inlined_from"] = sorted({x["inlined"] for x in all_nodes(h2) if x.get("inlined")} |
                                            {x["inl"] for x in all_nodes(h2) if x.get("inl")})
             h = h2
         h = map_tree(h, _or_split)
+        h = cast_to_uses(h)
+        h = alias(h, b.get("params", []))
+        h = subst_int_lets(h)
+        h = map_tree(h, _assign_op)
         b["hir"] = h
         if ref is not None and b["path"] in ref and ref[b["path"]] is not None:
             rename_params(b, ref[b["path"]])
     if inl is not None:
-        crate["inlined_helpers"] = sorted(p for p, v in inl._cand.items() if v is not None)
+        helpers = sorted(p for p, v in inl._cand.items() if v is not None)
+        # a helper all of whose calls were inlined is accounted for in its callers: its own body leaves the list the rules scan
+        # (it stays available as crate["helper_bodies"]; C04 still matches it against its MIR inventory)
+        residual = set()
+        for b in bodies:
+            if b["path"] in helpers:
+                continue
+            for x in all_nodes(b["hir"]):
+                if x.get("k") == "call" and not x.get("ctor"):
+                    residual.add(x.get("resolved") or x.get("callee") or "")
+            for x in all_nodes(b["hir"]):
+                if x.get("k") == "def" and x.get("path") in helpers:
+                    residual.add(x["path"])       # taken as a function value
+        gone = [h for h in helpers if h not in residual]
+        crate["inlined_helpers"] = gone
+        keep, moved = [], []
+        for b in crate["bodies"]:
+            owner = b["path"] if b.get("kind") != "Closure" else (b.get("parent") or "")
+            (moved if (b["path"] in gone or owner in gone) else keep).append(b)
+        crate["bodies"] = keep
+        crate["helper_bodies"] = moved
